@@ -6,3 +6,5 @@ import QlibcModel.Props.C04
 #print axioms Qlibc.Props.C04.nearest_history_independent
 #print axioms Qlibc.Props.C04.nearest_epoch
 #print axioms Qlibc.Props.C04.nearest_then_walk
+#print axioms Qlibc.Shapes.Tree.widths_as_modelled
+#print axioms Qlibc.Shapes.Tree.no_hidden_static_state
